@@ -126,6 +126,16 @@ def _mk(edzed, kind, name, probe, **kw):
             self.sdata['n'] = self.sdata.get('n', 0) + 1
         enter_s1 = enter_s2 = _count
 
+        def cond_e3(self):
+            # a condition that keeps its own record in the state data: also a rejected event
+            # is a handled event, and it has changed the internal state
+            self.sdata['n'] = self.sdata.get('n', 0) + 1
+            return self.sdata['n'] % 2 == 0
+
+        def cond_tmo(self):
+            # every other time the timed event is rejected: the FSM stays in s2 without a timer
+            return self.sdata.get('n', 0) % 2 == 1
+
         def enter_s3(self):
             self._count()
             if edzed.fsm_event_data.get().get('boom'):
